@@ -173,8 +173,31 @@ def exponent(F):
 
 # ====================================================================================== helpers
 
+_SWITCH = [False]
+
+
 def run2(env, cfg, what, ident, build, poison, seed=b""):
-    return [ebctx.run(env, cfg, what, ident, build, pz, seed) for pz in (poison, poison ^ 0xFF)]
+    # target fb-switch: the OTHER polynomial of the degree is installed right before the case's own, in one process:
+    # whatever fb_param_set derives (reduction data, square-root and half-trace tables, the Itoh-Tsujii squaring
+    # tables) must belong to the polynomial selected last
+    prev = None
+    if what == "fb" and _SWITCH[0]:
+        others = [f for f in ebctx.discover_fields(env, cfg)["fids"] if f != ident]
+        if others:
+            prev = others[poison % len(others)]
+    return [ebctx.run(env, cfg, what, ident, build, pz, seed, prev=prev) for pz in ((poison,) if prev is not None
+                                                                                    else (poison, poison ^ 0xFF))]
+
+
+def switched(run_fn):
+    def run(env, cfg, case):
+        _SWITCH[0] = True
+        try:
+            nt, lab = run_fn(env, cfg, case)
+            return True, lab + ["after-polynomial-switch"]
+        finally:
+            _SWITCH[0] = False
+    return run
 
 
 def chk_call(c, what, allow_error=False, **kw):
@@ -1499,6 +1522,12 @@ TARGETS = [
     Target("eb-misc", *deferred("eb", strat_ebmisc, run_ebmisc), _cfgs(), quick=3200, thorough=4000),
     Target("eb-mul", *deferred("eb", strat_mul, run_mul), _cfgs(), quick=6400, thorough=8000),
     Target("fb-inv", *deferred("fb", strat_inv, run_inv), _cfgs(), quick=24000, thorough=50000),
+    # the same strategies / oracles right after a switch between the polynomials of the degree (costs ~1 s per case:
+    # two fb_param_set and a fresh process for the next case)
+    Target("fb-switch", deferred("fb", strat_inv, run_inv)[0], switched(deferred("fb", strat_inv, run_inv)[1]), _cfgs(),
+           quick=240, thorough=1200),
+    Target("fb-switch-misc", deferred("fb", strat_misc, run_misc)[0], switched(deferred("fb", strat_misc, run_misc)[1]),
+           _cfgs(), quick=160, thorough=800),
     Target("eb-law", *deferred("eb", strat_law, run_law), _cfgs(), quick=14400, thorough=20000),
     Target("fb-rdc", *deferred("fb", strat_rdc, run_rdc), _cfgs(), quick=24000, thorough=50000),
     Target("fb-exp", *deferred("fb", strat_exp, run_exp), _cfgs(), quick=16000, thorough=30000),
